@@ -135,7 +135,7 @@ Qed.
 Theorem base_image_from_files_nonvacuous :
   exists s' n, run (gv wcfg_base) wL n ws0 = (Next s', n) /\ pc s' = halt_at wL /\ dom s' = 0 /\ cfi s' = [].
 Proof.
-  destruct (plain_image_from_files wcfg_base wscript_base wimg wimg_successful (or_introl eq_refl) (fun H => ltac:(discriminate H)) wL ws0 ws0_init)
+  destruct (plain_image_from_files wcfg_base wscript_base wimg wimg_successful (or_introl eq_refl) (fun H => ltac:(discriminate H)) wL ws0 _ ws0_init eq_refl)
     as (s' & eh & _ & _ & R & P & _ & _ & D & C).
   - reflexivity.
   - vm_compute. reflexivity.
@@ -219,7 +219,7 @@ Qed.
 Theorem tramp_image_from_files_nonvacuous :
   exists s' n, run (gv wcfg_tramp) wL_t n ws0_t = (Next s', n) /\ pc s' = halt_at wL_t /\ dom s' = 0 /\ cfi s' = [].
 Proof.
-  destruct (plain_image_from_files wcfg_tramp wscript_tramp wimg_t wimg_successful_t (or_intror eq_refl) (fun _ => ltac:(vm_compute; discriminate)) wL_t ws0_t ws0_init_t)
+  destruct (plain_image_from_files wcfg_tramp wscript_tramp wimg_t wimg_successful_t (or_intror eq_refl) (fun _ => ltac:(vm_compute; discriminate)) wL_t ws0_t _ ws0_init_t eq_refl)
     as (s' & eh & _ & _ & R & P & _ & _ & D & C).
   - reflexivity.
   - vm_compute. reflexivity.
